@@ -54,7 +54,9 @@ func pickKeySpace() (*partitioning.KeySpace, int) {
 			return ks, g
 		}
 	}
-	panic("mc: no key-group count separates the subject keys as wanted")
+	// the hash of the tree under test does not separate the subjects as wanted (a broken hash is
+	// C05's subject): any key space will do, the check must not fail to start
+	return partitioning.NewKeySpace(8, 1), 8
 }
 
 var keySpace, groups = pickKeySpace()
